@@ -21,7 +21,7 @@ import tracecheck
 from engine import Violation, CaseResult
 
 PROP = "C12"
-FIXED = (64, 65, 100, 127, 128, 255, 256, 1000, 4096, 65536, 0xFFFFFF)
+FIXED = (64, 65, 100, 127, 128, 255, 256, 1000, 4096, 8095, 8096, 8097, 65536, 0xFFFFFF)     # (8096: where the block-zero thresholds change)
 
 
 def derived_sizes(rng, srcs):
@@ -183,6 +183,13 @@ def run_case(seed, i, tier):
         dated = True
     else:
         dated = False
+    if not wild and rng.random() < 0.2:
+        # in colour: where the escape sequences fall must not depend on how a line is cut into blocks either
+        base_opts = ["--color", "always"] + base_opts[2:]
+        expected = None
+        cr_colour = True
+    else:
+        cr_colour = False
     sizes = list(FIXED)
     if i % 4 == 1:
         sizes += [2048, 2055, 2056, 2057, 2100, 8192]      # around the printer's staging buffer
@@ -224,6 +231,8 @@ def run_case(seed, i, tier):
         cr.probes["stamp_inside_the_line_family"] += 1
     if dated:
         cr.probes["parsed_instant_shown"] += 1
+    if cr_colour:
+        cr.probes["in_colour"] += 1
     for bsz in sizes:
         if wild:
             # F-C12a steering for this family: the first line (<= 70 bytes) must end inside block zero, and a block zero
